@@ -143,9 +143,21 @@ struct Driver {
 		}
 #endif
 	}
+#ifdef HFSM2_ENABLE_PLANS
+	void dumpPlans(Inst& in) {
+		const int cap = (int)FSM::TASK_CAPACITY;
+		for (int r = 0; r < VH_SHAPE.nRegions; ++r) {
+			planDump(in.m->plan((hfsm2::RegionID)r), log, r, cap, 'J');
+			planDump(static_cast<const Instance&>(*in.m).plan((hfsm2::RegionID)r), log, r, cap, 'C');
+		}
+	}
+#endif
 	void opEnd(Inst& in) {
 		log.tag('D'); log.i(in.probe.draws); log.nl();
 		snapshot(in);
+#ifdef HFSM2_ENABLE_PLANS
+		if (knobs.planDump && in.m) dumpPlans(in);
+#endif
 		log.tag('E'); log.nl();
 		log.flush();
 	}
@@ -232,7 +244,7 @@ int main(int argc, char** argv) {
 		else if (key == "log") logPath = eq + 1;
 		else if (key == "watchdog") watchdog = v;
 		KN(pIssue); KN(pGuardCancel); KN(pGuardIssue); KN(pConsume); KN(pSucceed); KN(pFail); KN(pHeadStatus); KN(pPropagate); KN(pPlanInCb);
-		KN(kinds); KN(maxBatch); KN(wfEvery); KN(palette); KN(zeroUtil); KN(pendq);
+		KN(kinds); KN(planDump); KN(maxBatch); KN(wfEvery); KN(palette); KN(zeroUtil); KN(pendq);
 		DR(wUpdate); DR(wReact); DR(wQuery); DR(wImmediate); DR(wReset); DR(wExitEnter); DR(wSaveLoad); DR(wPlanEdit); DR(wExtStatus); DR(wRecreate);
 		DR(replica); DR(useLogger); DR(verboseMethods); DR(fillByte);
 		else { fprintf(stderr, "unknown key %s\n", key.c_str()); return 2; }
